@@ -7,9 +7,10 @@ use crate::model::{MV, json};
 use proptest::prelude::*;
 use serde::{Deserialize, Serialize};
 
-pub const RULE: &str = "programs from a recursion grammar: shape in {self, mutual (2 and 3 functions), via / where / map / filter / reduce callback, the callee handed straight to into / where / element-wise via (no call expression in the cycle), do-block body (also with a captured name and a helper defined after its user), anonymous cycle through a record method / a list element / self-application, a named function made in a factory's do-block and used after the block has ended, the recursive call as a do-block statement whose value is not used} x per-call expression nesting 1..32 of kind {arithmetic chain, list nesting, record nesting, conditionals, call-argument nesting, mixture, field / index access under ??, operand of a record / list / argument spread, right operand of and / or / && whose left operand already decides}, each also in a source that starts with a non-ASCII comment, x {unbounded, bounded with depth 100..900 for plain shapes}; enumerated: every shape x nesting {1, 2, 4, 8} x 2 kinds (runaway and 200-300 deep) and nesting {16, 24, 32} x all kinds (runaway; 900 deep for plain shapes); random beyond that; single-line shapes are also typed statement by statement into the interactive CLI on a pseudo-terminal (same 8 MiB stack limit). Each is run in the release `blots` binary built from the working tree with RLIMIT_STACK = 8 MiB (the default main-thread stack), RLIMIT_AS 6 GiB and a 60 s timeout. Unbounded programs must exit with status 1 and report `maximum call depth`; a signal or exit 101 is a violation. Bounded programs must exit 0 with the arithmetically expected value. Non-trivial = per-call nesting >= 2 or a callback / mutual / anonymous shape; distinct by program text.";
+pub const RULE: &str = "programs from a recursion grammar: shape in {self, mutual (2 and 3 functions), via / where / map / filter / reduce callback, the callee handed straight to into / where / element-wise via (no call expression in the cycle), do-block body (also with a captured name and a helper defined after its user), anonymous cycle through a record method / a list element / self-application, a named function made in a factory's do-block and used after the block has ended, the recursive call as a do-block statement whose value is not used} x per-call expression nesting 1..32 of kind {arithmetic chain, list nesting, record nesting, conditionals, call-argument nesting, mixture, field / index access under ??, operand of a record / list / argument spread, right operand of and / or / && whose left operand already decides}, each also in a source that starts with a non-ASCII comment, x {unbounded, bounded with depth 100..900 for plain shapes}; enumerated: every shape x nesting {1, 2, 4, 8} x 2 kinds (runaway and 200-300 deep) and nesting {16, 24, 32} x all kinds (runaway; 900 deep for plain shapes); random beyond that; single-line shapes are also typed statement by statement into the interactive CLI on a pseudo-terminal (same 8 MiB stack limit). Each is run in the release `blots` binary built from the working tree with RLIMIT_STACK = 8 MiB (the default main-thread stack), RLIMIT_AS 6 GiB and a 60 s timeout. Unbounded programs must exit with status 1 and report `maximum call depth`; a signal or exit 101 is a violation. Bounded programs must exit 0 with the arithmetically expected value. Work (in-process, enumerated): linear recursions of shape {self, mutual, do-block body, record method} returning a value of type {number, null, list, record, string, boolean, empty list, function} through each of 24 value-preserving forms around the recursive call (left / right operand of ??, list / record / spread / computed-key wrap and unwrap, conditional branches, identity call / into / via / map / where / reduce, applied lambdas with plain / optional / rest parameter, do-block local) must return that value and make a number of function calls linear in the depth (depths 4, 8, 12, 16). Non-trivial = per-call nesting >= 2 or a callback / mutual / anonymous shape, or a work case; distinct by program text.";
 pub const ASSUMPTIONS: &[&str] = &[
-    "only the real binary decides; a timeout or memory-limit hit is counted as inconclusive, never as a violation",
+    "the real binary decides crashes, depth errors and completion; a timeout or memory-limit hit is counted as inconclusive, never as a violation",
+    "work: 'completes normally' for recursion a few hundred calls deep presupposes that a recursion making one recursive call per level does work proportional to its depth; this is decided in-process without a clock by counting the function calls the evaluator records (get_function_call_stats) at depths 4, 8, 12, 16 - more than six times the linear extrapolation from depth 4 is reported as super-linear work (an operand evaluated twice per level gives 2^depth)",
     "error-swallowing sort_by callbacks are excluded (they turn runaway recursion into exponential work and are not in the statement's list)",
 ];
 
@@ -271,6 +272,149 @@ impl Recursion {
     }
 }
 
+/// "completes normally" decided by counting work instead of watching a clock: a *linear*
+/// recursion (every level makes exactly one recursive call) whose result is handed back through a
+/// value-preserving form must make a number of function calls that grows linearly with its depth.
+#[derive(Clone, Debug, Serialize, Deserialize)]
+pub struct WorkCase {
+    /// type of the value that travels back up: 0 number, 1 null, 2 list, 3 record, 4 string, 5 boolean, 6 empty list, 7 function
+    pub ret: u8,
+    /// the value-preserving form around the recursive call
+    pub pass: u8,
+    /// 0 self, 1 mutual (2 functions), 2 do-block body, 3 record method
+    pub shape: u8,
+}
+
+pub struct Work;
+
+pub const PASS_FORMS: usize = 24;
+
+fn base_value(ret: u8) -> &'static str {
+    match ret {
+        0 => "7",
+        1 => "null",
+        2 => "[1, 2]",
+        3 => "{a: 1}",
+        4 => "\"s\"",
+        5 => "true",
+        6 => "[]",
+        _ => "idf",
+    }
+}
+
+pub fn work_program(c: &WorkCase, depth: u32) -> String {
+    let b = base_value(c.ret);
+    let callee = match c.shape {
+        1 => ("g", "f"),
+        3 => ("o.m", "o.m"),
+        _ => ("f", "f"),
+    };
+    let pass = |x: &str| -> String {
+        match c.pass as usize % PASS_FORMS {
+            0 => format!("({} ?? {})", x, b),
+            1 => format!("(null ?? {})", x),
+            2 => format!("[{}][0]", x),
+            3 => format!("{{a: {}}}.a", x),
+            4 => format!("(if true then {} else {})", x, b),
+            5 => format!("idf({})", x),
+            6 => format!("({} into idf)", x),
+            7 => format!("([{}] via idf)[0]", x),
+            8 => format!("do {{\n  t = {}\n  return t\n}}", x),
+            9 => format!("[...[{}]][0]", x),
+            10 => format!("idf(...[{}])", x),
+            11 => format!("{{...{{a: {}}}}}.a", x),
+            12 => format!("(({} ?? {}) ?? {})", x, b, b),
+            13 => format!("[{}, 0][0]", x),
+            14 => format!("[0, {}][-1]", x),
+            15 => format!("map([{}], idf)[0]", x),
+            16 => format!("([{}] where (q => true))[0]", x),
+            17 => format!("(if false then {} else {})", b, x),
+            18 => format!("{{[\"k\"]: {}}}.k", x),
+            19 => format!("reduce([{}], (acc, q) => q, 0)", x),
+            20 => format!("((q) => q)({})", x),
+            21 => format!("((q?) => q)({})", x),
+            22 => format!("((...q) => q[0])({})", x),
+            _ => format!("[[{}]][0][0]", x),
+        }
+    };
+    let body = |callee: &str| format!("if n <= 0 then {} else {}", b, pass(&format!("{}(n - 1)", callee)));
+    let mut src = String::from("idf = q => q\n");
+    match c.shape {
+        1 => src.push_str(&format!("f = n => {}\ng = n => {}\nr = f({})\n", body(callee.0), body(callee.1), depth)),
+        2 => src.push_str(&format!("f = n => do {{\n  m = n\n  return {}\n}}\nr = f({})\n", body("f").replace("n - 1", "m - 1").replace("n <= 0", "m <= 0"), depth)),
+        3 => src.push_str(&format!("o = {{m: n => {}}}\nr = o.m({})\n", body("o.m"), depth)),
+        _ => src.push_str(&format!("f = n => {}\nr = f({})\n", body("f"), depth)),
+    }
+    src
+}
+
+impl Check for Work {
+    type Case = WorkCase;
+    fn name(&self) -> &'static str {
+        "work"
+    }
+    fn journal(&self) -> bool {
+        true
+    }
+    fn run(&self, c: &WorkCase, ctx: &mut Ctx) -> Outcome {
+        let ret = ["number", "null", "list", "record", "string", "boolean", "empty-list", "function"][c.ret as usize % 8];
+        let pass = c.pass as usize % PASS_FORMS;
+        ctx.label(&format!("returns-{}", ret));
+        ctx.nontrivial(hash_str(&format!("{:?}", (c.ret % 8, pass, c.shape % 4))));
+        // calls made by a recursion `depth` levels deep, and its value
+        let measure = |depth: u32| -> Result<(usize, String), String> {
+            let src = work_program(c, depth);
+            let s = crate::blots::Sess::new();
+            let obs = s.run_program(&src)?;
+            match obs.last() {
+                Some(Ok(_)) if obs.len() >= 3 => {}
+                Some(Err(e)) => return Err(format!("fails: {}", e)),
+                _ => return Err("no value".into()),
+            }
+            let calls = blots_core::functions::get_function_call_stats().len();
+            blots_core::functions::clear_function_call_stats();
+            let shown = match s.obs("to_string(r)") {
+                Ok(MV::Str(t)) => t,
+                other => format!("{:?}", other),
+            };
+            Ok((calls, shown))
+        };
+        let expected = {
+            let s = crate::blots::Sess::new();
+            let _ = s.run_program("idf = q => q\n");
+            match s.obs(&format!("to_string({})", base_value(c.ret))) {
+                Ok(MV::Str(t)) => t,
+                other => format!("{:?}", other),
+            }
+        };
+        let mut counts: Vec<(u32, usize)> = Vec::new();
+        for depth in [4u32, 8, 12, 16] {
+            let (calls, shown) = match measure(depth) {
+                Ok(x) => x,
+                Err(e) => fail!(format!("work:{}:pass{}:fails", ret, pass), "a recursion {} levels deep should complete: {}\n--- program:\n{}", depth, e, work_program(c, depth)),
+            };
+            if shown != expected {
+                fail!(format!("work:{}:pass{}:wrong-value", ret, pass), "expected {} at depth {}, got {}\n--- program:\n{}", expected, depth, shown, work_program(c, depth));
+            }
+            counts.push((depth, calls));
+            // linear growth doubles the count from depth d to 2d (plus a constant); the bound leaves a
+            // factor of three on top of that before it speaks of super-linear work
+            let (d0, c0) = counts[0];
+            if calls > 6 * (depth / d0) as usize * c0.max(1) + 64 {
+                fail!(
+                    format!("work:{}:pass{}:superlinear-calls", ret, pass),
+                    "the number of function calls grows faster than the depth of a linear recursion: {:?} (depth, calls) - at this rate a recursion a few hundred calls deep, well below the limit of 1000, cannot complete\n--- program (depth {}):\n{}",
+                    counts,
+                    depth,
+                    work_program(c, depth)
+                );
+            }
+        }
+        ctx.extra_evals(3);
+        Ok(())
+    }
+}
+
 pub fn strategy() -> BoxedStrategy<Case> {
     (0u8..18, prop_oneof![3 => 1u8..5, 2 => 5u8..13, 1 => 13u8..33], 0u8..19, prop::option::weighted(0.35, 100u16..900))
         .prop_map(|(shape, nesting, kind, bounded)| {
@@ -322,5 +466,15 @@ pub fn run(ctx: &mut Ctx) {
         }
     }
     ctx.run_enum(&Recursion, fixed.into_iter(), false);
+    // work: every value type x every value-preserving form x four shapes, counted in-process
+    let mut work = Vec::new();
+    for shape in 0..4u8 {
+        for ret in 0..8u8 {
+            for pass in 0..PASS_FORMS as u8 {
+                work.push(WorkCase { ret, pass, shape });
+            }
+        }
+    }
+    ctx.run_enum(&Work, work.into_iter(), true);
     ctx.run_random(&Recursion, strategy(), ctx.tier.pick(400, 20_000));
 }
